@@ -1,0 +1,17 @@
+//go:build verif
+
+package dkv
+
+// VerifSealedMaxSeqs returns, oldest first, the largest sequence number held by each sealed
+// memtable: the writes after which the memtable rotated (C08 restore traces).
+func (db *DB) VerifSealedMaxSeqs() []uint64 {
+	var out []uint64
+	for _, mt := range db.mtables.Sealed() {
+		var m uint64
+		for e := range mt.All() {
+			m = max(m, e.SeqNum())
+		}
+		out = append(out, m)
+	}
+	return out
+}
